@@ -322,7 +322,7 @@ def run(ctx):
     ctx.exhaustive = True
     ctx.rule = (
         f"for each of the 13 dump formats every object of the C02 space with <= {k} deviations, dumped with allow_changes False and True, three times in a row, with read-only arrays, and through dump_many "
-        "(XYZ/PDB/MOL2/SDF); plus the full product contraction(5) x orbital kind(10) x 5 wavefunction targets x allow_changes (objects needing conversion), plus write_input for both programs. "
+        "(XYZ/PDB/MOL2/SDF); plus the full product contraction(6) x orbital kind(10) x 5 wavefunction targets x allow_changes (objects needing conversion), plus write_input for both programs. "
         "A deep bit-exact snapshot of an identically built twin object (taken before) is compared with the dumped object (after); converted objects are compared with the original through ref/gto.py."
     )
     ctx.assumptions += ["default core charges materialised from atnums are not a change (observed through the public property)", "member identity is checked for public attrs fields"]
